@@ -54,6 +54,7 @@ type Case struct {
 	Got     string `json:"got,omitempty"`
 	Seq     []Case `json:"seq,omitempty"`  // family "seq": the calls, in order
 	Key2    string `json:"key2,omitempty"` // family "repeat": the wrong key tried first
+	Gen     string `json:"gen,omitempty"`  // family "kwgen": seed (hex) of the generator of the Size bytes of key data
 }
 
 func hx(b []byte) string { return hex.EncodeToString(b) }
@@ -1479,6 +1480,13 @@ func (h *H) replay(path string) {
 		h.replayRSA(generic)
 		return
 	}
+	if fam, _ := generic["family"].(string); fam == "kwgen" {
+		var gc Case
+		if err := json.Unmarshal(rf.Case, &gc); err == nil {
+			h.replayKwGen(gc)
+		}
+		return
+	}
 	if fam, _ := generic["family"].(string); fam == "seq" {
 		var sc Case
 		if err := json.Unmarshal(rf.Case, &sc); err == nil {
@@ -1600,6 +1608,7 @@ func main() {
 	if f.Search {
 		rounds = 6
 	}
+	wait24 := h.kwCounter24() // 2^24 counter boundary, in the background (once, also in search mode)
 	for r := 0; r < rounds; r++ {
 		// C03_SKIP=batches,concurrent is for self-tests of the remaining monitors only
 		if skip := os.Getenv("C03_SKIP"); !strings.Contains(skip, "batches") {
@@ -1614,6 +1623,7 @@ func main() {
 		h.sizeSweeps()
 		h.junkNames()
 		h.kwDirect()
+		h.kwCounter()
 		h.kwHuge()
 		h.padDirect()
 		h.cbcHmacDirect()
@@ -1621,6 +1631,7 @@ func main() {
 	}
 	tSym := time.Since(t0)
 	obs := runAsym(res, f.Tier, h.rng.Fork(), f.Search)
+	wait24()
 	for _, o := range obs {
 		h.queue("asymmetric dispatch + key-kind guard: outcome class = model", o.Line, o.Impl, Case{Family: "asym", Monitor: "dispatch", Mut: o.Line})
 	}
